@@ -817,7 +817,8 @@ Theorem law_on_model w o : wf w -> valid_op w o -> law_step w o (observe w o) = 
 Proof.
   intros Hwf Hvo. destruct (step_shape w o) as [[c ->]|[[Eerr Hbad]|(ins' & r & nx & Hv & Hi & Hs & E)]].
   - (* NewInst *)
-    unfold observe, law_step. cbn [step target w_insts w_classes w_next is_default_read is_stored_read is_read negb orb app
+    unfold observe, law_step. cbn [addressed negb].
+    cbn [step target w_insts w_classes w_next is_default_read is_stored_read is_read negb orb app
                                    o_ret o_target o_digests o_classes o_exc].
     rewrite Nat2Z.id. rewrite app_nth2 by lia. rewrite Nat.sub_diag. cbn [nth new_inst i_calls forallb i_log].
     rewrite map_app, others_ok_app. unfold zlen. rewrite app_length, !map_length. cbn [length map].
@@ -834,7 +835,10 @@ Proof.
       pose proof (step_inst_calls_ok w (inst_at w (target w o)) o) as H. rewrite Hs in H. apply H.
       unfold inst_at. apply Forall_nth; [exact Hk | apply new_inst_calls_ok]. }
     pose proof (common_clauses w o ins' r nx Hwf Hv Hno Hc) as Hcommon. cbn zeta in Hcommon.
-    unfold law_step. fold (inst_at w (target w o)).
+    unfold law_step.
+    assert (Hadd : addressed w o = true).
+    { unfold addressed. destruct o; try reflexivity; apply in_range; exact Hv. }
+    rewrite Hadd. cbn [negb]. fold (inst_at w (target w o)).
     destruct o as [i n|i n content scalar|i n x|i n hid via|i n t|c]; try (exfalso; eapply Hno; reflexivity);
       try (cbn [is_default_read is_stored_read is_read negb orb chk app]; exact Hcommon).
     (* Read *)
